@@ -92,6 +92,18 @@ func toolchainYamlStyled(style string, cfg [][]byte) (content string, write bool
 			}
 		}
 		return sb.String(), true
+	case "case-keys":
+		// keys that differ from the real ones only in case are other keys: the loader ignores them
+		var sb strings.Builder
+		sb.WriteString("Patterns:\n  anti_evasion:\n    unix: \"[q]*\"\n    windows: \"[q]*\"\npatterns:\n")
+		names := []string{"anti_evasion", "anti_evasion_suffix", "anti_evasion_no_space_suffix"}
+		for i, n := range names {
+			sb.WriteString("  " + strings.ToUpper(n[:1]) + n[1:] + ":\n    unix: \"[k]*\"\n")
+			sb.WriteString("  " + n + ":\n")
+			sb.WriteString("    Unix: \"[y]*\"\n    unix:" + yamlBlock("      ", cfg[i]) + "    UNIX: \"[z]*\"\n")
+			sb.WriteString("    Windows: \"[y]*\"\n    windows:" + yamlBlock("      ", cfg[i+3]) + "    WINDOWS: \"[z]*\"\n")
+		}
+		return sb.String(), true
 	case "padded":
 		// patterns surrounded by blank lines and spaces inside the block scalar: the loader trims them
 		var sb strings.Builder
